@@ -123,7 +123,10 @@ def gen_plan(seed, tier="quick"):
                  "use_with": r.random() < 0.2,                                               # reader used as a context manager
                  "two_phase": two_phase, "pre_open": pre_open, "reopen": reopen,
                  "reopen_same": r.random() < 0.4,       # close() + open() on the same object instead of a new Reader
-                 "reopen_keep_open": r.random() < 0.35})  # ... or the first reader stays open while the second one is constructed
+                 "reopen_keep_open": r.random() < 0.35,   # ... or the first reader stays open while the second one is constructed
+                 # constructor keywords that must not change what a flat binary exposes: a ch_file= handed along (reader
+                 # keywords reused from the compressed form of the recording), the metadata passed explicitly from elsewhere
+                 "kw_ch_file": r.random() < 0.08, "kw_meta_file": r.random() < 0.08})
     return plan
 
 
@@ -248,6 +251,23 @@ def _run(plan, root):
         return None
 
     cls = getattr(spikeglx, plan["reader"])
+    xkw = {}
+    if plan.get("kw_meta_file") and plan["form"] == "bin" and plan.get("entry") != "meta":
+        elsewhere = root / "elsewhere"
+        elsewhere.mkdir()
+        metaf = metaf.rename(elsewhere / "the.meta")
+        xkw["meta_file"] = metaf
+        probe("meta_file_keyword")
+    if plan.get("kw_ch_file") and plan["form"] == "bin":
+        import mtscomp
+        tmpb = root / "other.bin"
+        tmpb.write_bytes(stream[: max(1, plan["claimed"]) * frame] if dt == np.dtype("int16") else stream[: 4 * nc])
+        mtscomp.compress(tmpb, out=root / "other.cbin", outmeta=root / "other.ch", sample_rate=fs, n_channels=nc, dtype=np.int16,
+                         chunk_duration=1.0, n_threads=1, check_after_compress=False, quiet=True)
+        tmpb.unlink()
+        (root / "other.cbin").unlink()
+        xkw["ch_file"] = root / "other.ch"
+        probe("ch_file_keyword_with_flat_binary")
     if plan.get("entry") == "meta":
         target = metaf
         probe("opened_through_the_meta_path")
@@ -260,7 +280,7 @@ def _run(plan, root):
     try:
         try:
             if two_phase:
-                sr = cls(target, open=False, ignore_warnings=plan["ignore_warnings"], sort=plan["sort"], **dkw)
+                sr = cls(target, open=False, ignore_warnings=plan["ignore_warnings"], sort=plan["sort"], **dkw, **xkw)
                 sys.settrace(None)
                 _ = sr.shape, sr.ns, sr.rl        # queried before open(): must not raise
                 for nb in plan.get("pre_open", []):      # the writer goes on between construction and open()
@@ -273,11 +293,11 @@ def _run(plan, root):
                 sys.settrace(global_trace)
                 sr.open()
             elif plan.get("use_with"):
-                with cls(target, open=False, ignore_warnings=plan["ignore_warnings"], sort=plan["sort"], **dkw) as sr_:
+                with cls(target, open=False, ignore_warnings=plan["ignore_warnings"], sort=plan["sort"], **dkw, **xkw) as sr_:
                     sr = sr_
                 sr.open()        # leaving the block closed it; the oracle reads through a fresh open()
             else:
-                sr = cls(target, ignore_warnings=plan["ignore_warnings"], sort=plan["sort"], **dkw)
+                sr = cls(target, ignore_warnings=plan["ignore_warnings"], sort=plan["sort"], **dkw, **xkw)
         finally:
             sys.settrace(None)
     except Exception as e:
@@ -351,7 +371,7 @@ def _run(plan, root):
                     same_obj.open()
                     sr = same_obj
                 else:
-                    sr = cls(target, ignore_warnings=plan["ignore_warnings"], sort=plan["sort"], **dkw)
+                    sr = cls(target, ignore_warnings=plan["ignore_warnings"], sort=plan["sort"], **dkw, **xkw)
             except Exception as e:
                 raise Violation("C11.O1", f"{sigbase}:second-open:{type(e).__name__}",
                                 f"second opening of the same path in the same process raised {type(e).__name__}: {e} | bytes={B2} frame={frame} claimed={plan['claimed']}")
